@@ -51,13 +51,40 @@ pub fn place_of(v: &Value) -> Place {
     }
 }
 
+/// key of the optional job value dimension (read by the value objective of the "…+value+…" goal kinds)
+pub struct JobValueKey;
+
+pub fn job_value(job: &Job) -> f64 {
+    job.dimens().get_value::<JobValueKey, f64>().copied().unwrap_or(0.)
+}
+
 pub fn single_of(v: &Value) -> Single {
     let mut dimens = Dimensions::default();
     dimens.set_job_id(format!("j{}", i64_of(&v["id"])));
     if !v["dem"].is_null() {
         dimens.set_job_demand(demand_of(&v["dem"]));
     }
+    if !v["value"].is_null() {
+        dimens.set_value::<JobValueKey, f64>(i64_of(&v["value"]) as f64);
+    }
     Single { places: v["places"].as_array().unwrap().iter().map(place_of).collect(), dimens }
+}
+
+/// candidate job of a case: a single job, or {"id", "multi": [single, ...], "value"?} as a Multi job (sub-jobs in the given order)
+pub fn job_of(v: &Value) -> Job {
+    if v["multi"].is_null() {
+        Job::Single(Arc::new(single_of(v)))
+    } else {
+        let mut b = MultiBuilder::default().id(&format!("m{}", i64_of(&v["id"])));
+        if !v["value"].is_null() {
+            let value = i64_of(&v["value"]) as f64;
+            b = b.dimension(move |dimens| dimens.set_value::<JobValueKey, f64>(value));
+        }
+        for s in v["multi"].as_array().unwrap().iter().map(single_of) {
+            b = b.add_job(s);
+        }
+        b.build_as_job().unwrap()
+    }
 }
 
 /// a tour activity description {job, loc, svc, tws, twe, dem} as a single-place single-window job
@@ -65,6 +92,9 @@ pub fn single_of_act(v: &Value) -> Single {
     let mut dimens = Dimensions::default();
     dimens.set_job_id(format!("j{}", i64_of(&v["job"])));
     dimens.set_job_demand(demand_of(&v["dem"]));
+    if !v["value"].is_null() {
+        dimens.set_value::<JobValueKey, f64>(i64_of(&v["value"]) as f64);
+    }
     Single {
         places: vec![Place {
             location: Some(usize_of(&v["loc"])),
@@ -152,6 +182,16 @@ pub fn build_goal(kind: &str, transport: Arc<dyn TransportCost>) -> GenericResul
             tf().build_minimize_distance()?,
             capacity,
         ],
+        "unassigned+value+distance" | "unassigned+value+cost" => {
+            let value = create_maximize_total_job_value_feature(
+                "max-value",
+                JobReadValueFn::Left(Arc::new(job_value)),
+                Arc::new(|job, _| job),
+                ViolationCode(3),
+            )?;
+            let last = if kind.ends_with("distance") { tf().build_minimize_distance()? } else { tf().build_minimize_cost()? };
+            vec![MinimizeUnassignedBuilder::new("min-unassigned").build()?, value, last, capacity]
+        }
         _ => return Err(format!("unknown goal kind {kind}").into()),
     };
     GoalContextBuilder::with_features(&features)?.build()
